@@ -1,7 +1,7 @@
 """C19 -- lazy bootstrapping equals eager bootstrapping under every thread interleaving."""
 import shutil
 
-from .. import common, pipeline, tla
+from .. import canary, common, pipeline, tla
 from .. import d_bootstrap as D
 
 IMPL_CFG = """SPECIFICATION Spec
@@ -61,6 +61,7 @@ def main(tier):
         events = [e for o in pipeline.pmap(D.run_schedules, jobs) for e in o]
         rep.mark("schedules")
         res = tla.judge("J_Bootstrap", events, chunk=1500, jobs=common.jobs())
+        pipeline.canaries(rep, "J_Bootstrap", events[::max(1, len(events) // 40)], canary.bootstrap, env=None, want=16)
         rep.mark("judge")
         for gi, clause, detail in res["bad"]:
             e = events[gi]
